@@ -20,8 +20,8 @@ PID = "C40"
 LEVEL = "translation_validation"
 LEAN = ["SaVerif.Props.C40"]
 META = {
-    "text": "Lean theorems about the relational meaning of the loader plans (not about strategies.py itself): for every primary result with distinct keys, every child table, every relationship ordering that commutes with filtering (instance: stable insertion sort, sortByK_filter_comm) and every positive IN chunk size, joined (LEFT OUTER JOIN rows + identity de-duplication + append in row order), subquery (primary query as subquery JOIN child) and selectin (IN chunks) build exactly the lazily loaded graph - same parents, collection contents and order (strategies_agree, selectin_eq_lazy, subquery_eq_lazy, joined_eq_lazy, joined_wrapped_limit); without the subquery wrap LIMIT truncates collections (joined_limit_wrap_needed, proved counterexample); many-to-one IN loading equals per-row lookup (m2o_selectin_eq_lazy); selectin statement count = ceil(n/chunk). The ORM is tied to this by translation validation on SQLite: generated mappings, data, queries and every assignment of loader strategies along A.bs / B.cs / B.a / A.tags plus column options; object-graph snapshots are compared with the all-lazy baseline and with the model's graph, and statement counts / wrap presence / IN chunk sizes with the model's plan.",
-    "note": "translation_validation: the theorems are about the relational model of each plan; that strategies.py / context.py / loading.py emit and assemble those plans is only checked by execution on SQLite. Relationships without ORDER BY are compared as multisets. yield_per is exercised only with strategies that permit it; with_expression, raiseload, noload, inheritance (see C42) are not covered here.",
+    "text": "Lean theorems about the relational meaning of the loader plans (not about strategies.py itself): for every primary result with distinct keys, every child table, every relationship ordering that commutes with filtering (instance: stable insertion sort, sortByK_filter_comm) and every positive IN chunk size, joined (LEFT OUTER JOIN rows + identity de-duplication + append in row order), subquery (primary query as subquery JOIN child) and selectin (IN chunks) build exactly the lazily loaded graph - same parents, collection contents and order (strategies_agree, selectin_eq_lazy, subquery_eq_lazy, joined_eq_lazy, joined_wrapped_limit); without the subquery wrap LIMIT truncates collections (joined_limit_wrap_needed, proved counterexample); many-to-one IN loading equals per-row lookup (m2o_selectin_eq_lazy); selectin statement count = ceil(n/chunk). The nest decision is transcribed (shouldNest) and compared with what the property needs (nestNeeded): equal without fetch(), proved different with fetch() alone (should_nest_misses_fetch, finding F23). The ORM is tied to this by translation validation on SQLite: generated mappings (single-table polymorphic B/BSub targets, a query_expression attribute), data, queries (LIMIT / OFFSET / FETCH each alone and combined, DISTINCT, join+distinct, select() and legacy Query slicing) and every assignment of loader strategies along A.bs / B.cs / C.ds (three levels) / B.a / A.tags plus column options, with_expression and an untriggered raiseload; object-graph snapshots are compared with the all-lazy baseline and with the model's graph, and statement counts / wrap presence / IN chunk sizes with the model's plan.",
+    "note": "translation_validation: the theorems are about the relational model of each plan; that strategies.py / context.py / loading.py emit and assemble those plans is only checked by execution on SQLite. Relationships without ORDER BY are compared as multisets. yield_per is exercised only with strategies that permit it; noload is excluded by the property; joined-table inheritance targets are C42's. FETCH is executed on SQLite by rewriting `[OFFSET ? ROWS] FETCH FIRST ? ROWS ONLY` to `LIMIT` in a cursor event. Known findings F23 (joined eager collection + fetch() alone is not wrapped), F24 (AssertionError reading an unset query_expression after load_only + subqueryload + eager backref), F25 (subqueryload + fetch() alone: embedded query loses its ORDER BY).",
     "technique": "Lean 4 proofs about list-relational query plans + differential execution of all loader-strategy assignments on SQLite",
     "design_ref": "DESIGN.md §3 C40, C41, C42",
 }
@@ -34,7 +34,7 @@ REF = ("lazy", "joined", "selectin", "immediate")
 def build(case):
     import sqlalchemy as sa
     from sqlalchemy import Column, ForeignKey, Integer, Table
-    from sqlalchemy.orm import declarative_base, relationship
+    from sqlalchemy.orm import declarative_base, query_expression, relationship
 
     rng = random.Random(case["seed"])
     Base = declarative_base()
@@ -54,40 +54,62 @@ def build(case):
         y = Column(Integer)
         bs = relationship("B", back_populates="a", order_by=("B.k, B.id" if ordered else None))
         tags = relationship("Tag", secondary=atag, order_by=("Tag.w.desc(), Tag.id" if ordered else None))
+        expr = query_expression()
 
     class B(Base):
         __tablename__ = "b"
         id = Column(Integer, primary_key=True)
         a_id = Column(ForeignKey("a.id"))
         k = Column(Integer)
+        kind = Column(sa.String(4))  # single-table inheritance discriminator
+        extra = Column(Integer)      # attribute of the subclass only
         a = relationship("A", back_populates="bs")
         cs = relationship("C", order_by=("C.id.desc()" if ordered else None))
+        __mapper_args__ = {"polymorphic_on": kind, "polymorphic_identity": "b"}
+
+    class BSub(B):
+        __mapper_args__ = {"polymorphic_identity": "bs"}
 
     class C(Base):
         __tablename__ = "c"
         id = Column(Integer, primary_key=True)
         b_id = Column(ForeignKey("b.id"))
         v = Column(Integer)
+        ds = relationship("D", order_by=("D.id" if ordered else None))
+
+    class D(Base):
+        __tablename__ = "d"
+        id = Column(Integer, primary_key=True)
+        c_id = Column(ForeignKey("c.id"))
+        z = Column(Integer)
+
+    A._verif_extras = {"BSub": BSub, "D": D}
 
     eng = sa.create_engine("sqlite://")
     Base.metadata.create_all(eng)
     na = case["na"]
-    data = {"a": [], "b": [], "c": [], "tag": [], "atag": []}
+    data = {"a": [], "b": [], "c": [], "d": [], "tag": [], "atag": []}
     for i in range(1, na + 1):
         data["a"].append({"id": i, "x": rng.randrange(4), "y": rng.choice([None, 1, 2])})
     bid = 0
     for i in range(1, na + 1):
         for _ in range(rng.choice([0, 0, 1, 2, 3] if na < 100 else [0, 1])):
             bid += 1
-            data["b"].append({"id": bid, "a_id": i, "k": rng.randrange(3)})
+            sub = rng.random() < 0.4
+            data["b"].append({"id": bid, "a_id": i, "k": rng.randrange(3), "kind": "bs" if sub else "b", "extra": rng.randrange(9) if sub else None})
     for _ in range(rng.choice([0, 1, 2])):
         bid += 1
-        data["b"].append({"id": bid, "a_id": None, "k": rng.randrange(3)})  # orphans
+        data["b"].append({"id": bid, "a_id": None, "k": rng.randrange(3), "kind": "b", "extra": None})  # orphans
     cid = 0
     for b in data["b"]:
         for _ in range(rng.choice([0, 1, 2])):
             cid += 1
             data["c"].append({"id": cid, "b_id": b["id"], "v": rng.randrange(5)})
+    did = 0
+    for cr in data["c"]:
+        for _ in range(rng.choice([0, 0, 1, 2]) if na < 100 else 0):
+            did += 1
+            data["d"].append({"id": did, "c_id": cr["id"], "z": rng.randrange(5)})
     for t in range(1, 5):
         data["tag"].append({"id": t, "w": rng.randrange(3)})
     for i in range(1, na + 1):
@@ -95,7 +117,7 @@ def build(case):
             data["atag"].append({"a_id": i, "t_id": t})
     # shuffle physical insertion order so that "no ORDER BY" is not accidentally ordered
     with eng.begin() as c:
-        for name, tbl in (("a", A.__table__), ("tag", Tag.__table__), ("b", B.__table__), ("c", C.__table__), ("atag", atag)):
+        for name, tbl in (("a", A.__table__), ("tag", Tag.__table__), ("b", B.__table__), ("c", C.__table__), ("d", D.__table__), ("atag", atag)):
             rows = list(data[name])
             rng.shuffle(rows)
             if rows:
@@ -121,16 +143,29 @@ def primary_query(case, A, B):
     else:
         stmt = stmt.order_by(A.id)
     if q["limit"] is not None:
-        stmt = stmt.limit(q["limit"])
+        # FETCH FIRST is rendered generically; the engine rewrites it for SQLite (see FETCH_RE)
+        stmt = stmt.fetch(q["limit"]) if q.get("fetch") else stmt.limit(q["limit"])
     if q["offset"] is not None:
         stmt = stmt.offset(q["offset"])
     return stmt
 
 
+FETCH_BOTH = re.compile(r"OFFSET (\?) ROWS\s+FETCH FIRST (\?) ROWS ONLY")
+FETCH_ONLY = re.compile(r"FETCH FIRST (\?) ROWS ONLY")
+
+
+def fetch_to_sqlite(stmt):
+    """SQLite has no OFFSET..FETCH: `OFFSET ? ROWS FETCH FIRST ? ROWS ONLY` = `LIMIT ?, ?` (offset,
+    count - same parameter order), `FETCH FIRST ? ROWS ONLY` = `LIMIT ?`"""
+    stmt = FETCH_BOTH.sub("LIMIT ?, ?", stmt)
+    return FETCH_ONLY.sub("LIMIT ?", stmt)
+
+
 def loader_options(assign, classes, chunk=None):
-    from sqlalchemy.orm import defer, immediateload, joinedload, lazyload, load_only, selectinload, subqueryload, undefer
+    from sqlalchemy.orm import defer, immediateload, joinedload, lazyload, load_only, raiseload, selectinload, subqueryload, undefer, with_expression
 
     A, B, C, Tag = classes
+    D = A._verif_extras["D"]
     fn = {"lazy": lazyload, "joined": joinedload, "subquery": subqueryload, "selectin": selectinload, "immediate": immediateload}
     opts = []
 
@@ -148,13 +183,20 @@ def loader_options(assign, classes, chunk=None):
             subs.append(("a", assign["a"]))
         if not subs:
             opts.append(base)
+        meths = {"lazy": "lazyload", "joined": "joinedload", "subquery": "subqueryload", "selectin": "selectinload", "immediate": "immediateload"}
         for name, kind in subs:
             b2 = mk(assign["bs"] if assign["bs"] != "default" else "lazy", A.bs)
             attr = B.cs if name == "cs" else B.a
-            meth = {"lazy": "lazyload", "joined": "joinedload", "subquery": "subqueryload", "selectin": "selectinload", "immediate": "immediateload"}[kind]
-            opts.append(getattr(b2, meth)(attr))
+            o = getattr(b2, meths[kind])(attr)
+            if name == "cs" and assign.get("ds", "default") != "default":
+                o = getattr(o, meths[assign["ds"]])(C.ds)  # third level of the chain
+            opts.append(o)
     if assign["tags"] != "default":
         opts.append(mk(assign["tags"], A.tags))
+    if assign.get("with_expr"):
+        opts.append(with_expression(A.expr, A.x * 10 + assign["with_expr"]))
+    if assign.get("raise_tags"):
+        opts.append(raiseload(A.tags))  # never triggered: the snapshot skips tags then
     col = assign.get("cols", "none")
     if col == "defer_x":
         opts.append(defer(A.x))
@@ -166,16 +208,46 @@ def loader_options(assign, classes, chunk=None):
     return opts
 
 
-def snapshot(objs, ordered):
+def snapshot(objs, ordered, skip_tags=False):
     out = []
     for a in objs:
-        bs = [(b.id, b.k, (b.a.id if b.a is not None else None), _ord([(c.id, c.v) for c in b.cs], ordered)) for b in a.bs]
-        out.append((a.id, a.x, a.y, _ord(bs, ordered), _ord([(t.id, t.w) for t in a.tags], ordered)))
+        bs = [
+            (type(b).__name__, b.id, b.k, b.extra, (b.a.id if b.a is not None else None), _ord([(c.id, c.v, _ord([(d.id, d.z) for d in c.ds], ordered)) for c in b.cs], ordered))
+            for b in a.bs
+        ]
+        tags = None if skip_tags else _ord([(t.id, t.w) for t in a.tags], ordered)
+        out.append((a.id, a.x, a.y, a.expr, _ord(bs, ordered), tags))
     return out
 
 
 def _ord(lst, ordered):
     return list(lst) if ordered else sorted(lst, key=repr)
+
+
+def legacy_objs(s, case, assign, classes):
+    """the same query through the legacy Query API, OFFSET / LIMIT via __getitem__"""
+    A, B, C, Tag = classes
+    q = case["query"]
+    lq = s.query(A)
+    if q["join_filter"]:
+        lq = lq.join(A.bs).filter(B.k >= q["join_filter"] - 1).distinct()
+    if q["where"] is not None:
+        lq = lq.filter(A.x < q["where"])
+    if q["distinct"] and not q["join_filter"]:
+        lq = lq.distinct()
+    if q["order"] == "x_desc":
+        lq = lq.order_by(A.x.desc(), A.id)
+    elif q["order"] == "id_desc":
+        lq = lq.order_by(A.id.desc())
+    else:
+        lq = lq.order_by(A.id)
+    lq = lq.options(*loader_options(assign, classes, case.get("chunk")))
+    if q["limit"] is None and q["offset"] is None:
+        return lq.all()
+    lo = q["offset"] or 0
+    if q["limit"] is None:
+        return lq[lo:]
+    return lq[lo : lo + q["limit"]]
 
 
 def run_assignment(case, eng, classes, assign):
@@ -188,8 +260,9 @@ def run_assignment(case, eng, classes, assign):
 
     def bce(conn, cur, stmt, params, ctx, many):
         log.append((" ".join(stmt.split()), params))
+        return fetch_to_sqlite(stmt), params
 
-    event.listen(eng, "before_cursor_execute", bce)
+    event.listen(eng, "before_cursor_execute", bce, retval=True)
     out = {"exc": None}
     try:
         with Session(eng) as s:
@@ -197,15 +270,18 @@ def run_assignment(case, eng, classes, assign):
             eo = {}
             if assign.get("yield_per"):
                 eo["yield_per"] = assign["yield_per"]
-            res = s.execute(stmt, execution_options=eo)
-            objs = res.unique().scalars().all() if not assign.get("yield_per") else [o for part in res.scalars().partitions() for o in part]
+            if case.get("api") == "query" and not assign.get("yield_per"):
+                objs = legacy_objs(s, case, assign, classes)
+            else:
+                res = s.execute(stmt, execution_options=eo)
+                objs = res.unique().scalars().all() if not assign.get("yield_per") else [o for part in res.scalars().partitions() for o in part]
             out["nload"] = len(log)
             out["load_sql"] = [l[0] for l in log]
             out["load_log"] = list(log)
             out["ids"] = [a.id for a in objs]
             out["bs"] = [(a.id, [b.id for b in a.bs]) for a in objs]
             out["n_after_bs"] = len(log)  # lazy loading of A.bs has happened by now
-            out["snap"] = snapshot(objs, case["ordered"])
+            out["snap"] = snapshot(objs, case["ordered"], skip_tags=bool(assign.get("raise_tags") or assign.get("_skip_tags")))
     except Exception as e:  # noqa: BLE001
         out["exc"] = "%s: %s" % (type(e).__name__, str(e)[:200])
     finally:
@@ -220,12 +296,13 @@ def gen_case(rng, tier, big=False):
     return {
         "na": na,
         "ordered": rng.random() < 0.8,
-        "api": "select",
+        "api": rng.choice(["select", "select", "select", "query"]) if not big else "select",
         "chunk": rng.choice([None, None, 1, 2, 3]) if not big else None,
         "query": {
             "where": rng.choice([None, None, 1, 2, 3]),
             "order": rng.choice(["x_desc", "id_desc", "id"]),
             "limit": lim,
+            "fetch": lim is not None and rng.random() < 0.3,
             "offset": rng.choice([None, None, 0, 1, 3]),
             "distinct": rng.random() < 0.2,
             "join_filter": rng.choice([0, 0, 0, 1, 2]),
@@ -250,8 +327,15 @@ def gen_assignments(rng, tier, big=False):
             "a": rng.choice(REF + ("default",)),
             "tags": rng.choice(COLL + ("default",)),
             "cols": rng.choice(["none", "none", "defer_x", "load_only_x", "defer_undefer"]),
+            "ds": rng.choice(COLL + ("default",)),
+            "with_expr": rng.choice([0, 0, 1, 7]),
+            "raise_tags": rng.random() < 0.15,
         }
-        eager_coll = any(a[p] in ("joined", "subquery") for p in ("bs", "cs", "tags"))
+        if a["raise_tags"]:
+            a["tags"] = "default"
+        if a["cols"] in ("defer_x", "load_only_x"):
+            a["with_expr"] = 0  # keep the expression independent of deferral options
+        eager_coll = any(a[p] in ("joined", "subquery") for p in ("bs", "cs", "tags", "ds"))
         if not eager_coll and rng.random() < 0.3:
             a["yield_per"] = rng.choice([1, 2, 5])
         out.append(a)
@@ -261,8 +345,16 @@ def gen_assignments(rng, tier, big=False):
 # ---------------------------------------------------------------------------- one case
 def run_case(case, assignments):
     eng, classes, data = build(case)
-    base = run_assignment(case, eng, classes, {"bs": "lazy", "cs": "lazy", "a": "lazy", "tags": "lazy", "cols": "none"})
-    results = [(a, run_assignment(case, eng, classes, a)) for a in assignments]
+    bases = {}
+
+    def baseline(a):
+        k = (a.get("with_expr", 0), bool(a.get("raise_tags")))
+        if k not in bases:
+            bases[k] = run_assignment(case, eng, classes, {"bs": "lazy", "cs": "lazy", "a": "lazy", "tags": "lazy", "ds": "lazy", "cols": "none", "with_expr": k[0], "raise_tags": False, "_skip_tags": k[1]})
+        return bases[k]
+
+    base = baseline({})
+    results = [(a, run_assignment(case, eng, classes, a), baseline(a)) for a in assignments]
     eng.dispose()
     return base, results, data
 
@@ -272,19 +364,48 @@ def oracle(case, base, results):
     out = []
     if base["exc"]:
         return [("c40-baseline-exception", None, base["exc"])]
-    for a, r in results:
+    for a, r, b0 in results:
         if r["exc"]:
             out.append(("c40-exception", a, r["exc"]))
             continue
-        if r["ids"] != base["ids"]:
-            out.append(("c40-primary-result-differs", a, "primary ids %s, lazy baseline %s" % (r["ids"][:20], base["ids"][:20])))
+        if b0["exc"]:
+            out.append(("c40-baseline-exception", a, b0["exc"]))
             continue
-        if r["snap"] != base["snap"]:
-            for x, y in zip(r["snap"], base["snap"]):
+        if r["ids"] != b0["ids"]:
+            out.append(("c40-primary-result-differs", a, "primary ids %s, lazy baseline %s" % (r["ids"][:20], b0["ids"][:20])))
+            continue
+        if r["snap"] != b0["snap"]:
+            for x, y in zip(r["snap"], b0["snap"]):
                 if x != y:
                     out.append(("c40-graph-differs", a, "object %s, lazy baseline %s" % (x, y)))
                     break
     return out
+
+
+F23 = "joined-eager-collection-fetch-only-not-wrapped"
+F24 = "unset-query-expression-after-load-only-subquery-backref-assertion"
+
+
+F25 = "subqueryload-fetch-only-embedded-query-loses-order-by"
+
+
+def classify(case, assign, key, detail=""):
+    """F23: fetch() without offset() + a joined eager collection: _should_nest_selectable does
+    not look at fetch_clause, FETCH FIRST is applied to the joined rows"""
+    q = case["query"]
+    if assign and key == "c40-exception" and assign.get("cols") == "load_only_x" and assign.get("bs") == "subquery" and "_only_load_props" in detail:
+        return F24
+    fetch_only = bool(q.get("fetch")) and q["limit"] is not None and q["offset"] is None and case.get("api") != "query"
+    if assign and fetch_only and key in ("c40-primary-result-differs", "c40-graph-differs"):
+        f23 = (assign.get("bs") == "joined" or assign.get("tags") == "joined") and not (q["distinct"] or q["join_filter"])
+        if not f23 and any(assign.get(p_) == "subquery" for p_ in ("bs", "cs", "tags", "ds")):
+            return F25
+    if assign and key in ("c40-primary-result-differs", "c40-graph-differs") and q.get("fetch") and q["limit"] is not None and q["offset"] is None:
+        if not (q["distinct"] or q["join_filter"]) and case.get("api") != "query":
+            joined_coll = assign.get("bs") == "joined" or assign.get("tags") == "joined"
+            if joined_coll:
+                return F23
+    return None
 
 
 def expected_nest(case, assign):
@@ -316,18 +437,18 @@ def one(ctx, case, assignments, names, cases, impl_out, reqs):
     ctx.count("parents=%s" % ("0" if not base.get("ids") else "1-5" if len(base["ids"]) < 6 else "6+" if len(base["ids"]) < 100 else "500+"))
     ctx.count("limit=%s offset=%s distinct=%s" % (q["limit"] is not None, q["offset"] is not None, bool(q["distinct"] or q["join_filter"])))
     for key, a, detail in oracle(case, base, results):
-        ctx.violation(key, {"case": case, "assign": a}, detail)
-    for a, r in results:
+        ctx.violation(classify(case, a, key, detail) or key, {"case": case, "assign": a}, detail)
+    for a, r, _b0 in results:
         ctx.case((case["seed"], sorted(a.items())), nontrivial=bool(base.get("ids")))
         ctx.count("bs=" + a["bs"])
         if r["exc"] or base["exc"]:
             continue
         single = a["cs"] == "default" and a["a"] == "default" and a["tags"] == "default" and a["cols"] == "none" and not a.get("yield_per")
-        if single and a["bs"] != "default":
+        if single and a["bs"] != "default" and r["load_sql"]:
             # the A.bs level against the model's plan for that strategy
             chunk = case.get("chunk") or 500
             g = ";".join("%d=%s" % (pid, ",".join(str(i) for i in (bids if case["ordered"] else sorted(bids))) or "-") for pid, bids in r["bs"]) or "-"
-            if case["ordered"]:
+            if case["ordered"] and classify(case, a, "c40-graph-differs") is None:
                 names.append("graph")
                 cases.append({"case": case, "assign": a})
                 impl_out.append("ok " + g)
@@ -348,12 +469,15 @@ def one(ctx, case, assignments, names, cases, impl_out, reqs):
                 cases.append({"case": case, "assign": a})
                 impl_out.append("ok " + ",".join(str(x) for x in insizes))
                 reqs.append("loader chunks %d %d" % (n, chunk))
-        if a["bs"] == "joined" or a["tags"] == "joined":
+        if (a["bs"] == "joined" or a["tags"] == "joined") and r["load_sql"]:
             wrapped = "FROM (SELECT" in r["load_sql"][0]
             names.append("nest")
             cases.append({"case": case, "assign": a})
             impl_out.append("1" if wrapped else "0")
-            reqs.append("loader nest 1 1 %d %d %d 0" % (q["limit"] is not None, q["offset"] is not None, bool(q["distinct"] or q["join_filter"])))
+            is_fetch = bool(q.get("fetch")) and q["limit"] is not None and case.get("api") != "query"
+            # (legacy Query slicing: q[0:] / q[0:n] leave the OFFSET unset)
+            has_off = bool(q["offset"]) if case.get("api") == "query" else q["offset"] is not None
+            reqs.append("loader nest 1 1 %d %d %d %d 0" % (q["limit"] is not None and not is_fetch, has_off, is_fetch, bool(q["distinct"] or q["join_filter"])))
     if base.get("ids") and len(base["ids"]) > 1:
         ctx.sample({"query": q, "ordered": case["ordered"], "ids": base["ids"][:10], "assignments": len(results), "first_graph": base["snap"][0] if base["snap"] else None}, cap=4)
 
@@ -394,6 +518,7 @@ def replay(ctx, obj):
     case, assign = c["case"], c["assign"]
     try:
         base, results, _ = run_case(case, [assign] if assign else [])
+        results = [x for x in results]
     except Exception as e:  # noqa: BLE001
         print("replay C40 crashes: %r" % e)
         return True
